@@ -19,13 +19,21 @@ def main(repo, outdir):
             if callable(info.Iq):
                 index["models"][name] = {"kind": "py"}
                 continue
-            src = generate.make_source(info)["dll"]
+            sources = generate.make_source(info)
+            src = sources["dll"]
             path = os.path.join(outdir, name + ".c")
             with open(path, "w") as fd:
                 fd.write(src)
+            # the OpenCL configuration of the same model (what kernelcl hands to the device compiler in double precision)
+            cl_path = None
+            if sources.get("opencl"):
+                cl_path = os.path.join(outdir, name + ".cl")
+                with open(cl_path, "w") as fd:
+                    fd.write("#pragma OPENCL EXTENSION cl_khr_fp64: enable\n")
+                    fd.write(generate.convert_type(sources["opencl"], generate.F64))
             pt = info.parameters
             index["models"][name] = {
-                "kind": "c", "unit": path,
+                "kind": "c", "unit": path, "cl_unit": cl_path,
                 "max_pd": pt.max_pd, "npars": pt.npars, "nvalues": pt.nvalues,
                 "nmagnetic": pt.nmagnetic,
                 "have_Fq": bool(info.have_Fq),
